@@ -53,3 +53,54 @@ func VerifC05dec() {
 }
 
 func c05do(f func()) { f() }
+
+var _ = verifReg("C05jsonmap", VerifC05jsonmap)
+
+// verifJSONValue: an arbitrary decoded JSON value of depth <= 1 (what encoding/json stores in
+// an interface{}): nil, bool, float64, string, []interface{}, map[string]interface{}
+func verifJSONValue(name string) (interface{}, string) {
+	switch ndConcrete(verifChoice(name+".jsonkind", 6)) {
+	case 0:
+		return nil, "null"
+	case 1:
+		return ndBool(name + ".bool"), "true"
+	case 2:
+		return float64(42), "42"
+	case 3:
+		return verifProfileNames[ndConcrete(verifChoice(name+".str", 4))], ""
+	case 4:
+		return []interface{}{"x"}, `["x"]`
+	}
+	return map[string]interface{}{"k": "v"}, `{"k":"v"}`
+}
+
+// DecodeClaimsFromJSON on a top-level object whose profile members hold ARBITRARY JSON value kinds
+func VerifC05jsonmap() {
+	verifInstallStubs()
+	m := map[string]interface{}{}
+	doc := `{"other":1`
+	for _, tag := range []string{"psa-profile", "eat-profile"} {
+		if ndBool(tag + ".present") {
+			v, lit := verifJSONValue(tag)
+			m[tag] = v
+			if s, ok := v.(string); ok {
+				lit = `"` + s + `"`
+			} else if b, ok := v.(bool); ok && !b {
+				lit = "false"
+			}
+			doc += `,"` + tag + `":` + lit
+		}
+	}
+	doc += "}"
+	verifStub.jsonMap = m
+	verifStub.p1 = genP1Claims(0, 4)
+	verifGenPfx = "q."
+	verifStub.p2 = genP2Claims(1, 4, 1)
+	verifGenPfx = ""
+	buf := []byte(doc)
+	c, err := DecodeClaimsFromJSON(buf) // implicit obligation: no own-code panic
+	if err == nil {
+		c05do(func() { _ = c.Validate() })
+	}
+	ndCover("c05-jsonmap-ran", true)
+}
